@@ -597,6 +597,201 @@ func (e *emitter) c12Clients(s *source) {
 	e.c12DeepDef(s, tk, "fakeTicker.Tick", "fakeTickerTickStmts")
 }
 
+
+// ---------------------------------------------------------------------------------------------- round 5: typed tables
+
+// c12WheelMethods are the public methods of the wheel a client calls.
+var c12WheelMethods = map[string]bool{"SetTimer": true, "MoveTimer": true, "RemoveTimer": true, "Drain": true}
+
+// c12WheelCalls emits, for EVERY function of the file (function literals included), every call of a public method
+// of a timing wheel as a typed row: (enclosing function, method, forwarded arguments, issued on a goroutine of
+// its own?, inside a deferred call?).  A call is on a goroutine of its own when an enclosing statement is a
+// `go` statement or an enclosing call is threading.GoSafe / GoSafeCtx.
+func (e *emitter) c12WheelCalls(s *source, rel, lean string) {
+	f := s.file(rel)
+	if f == nil {
+		e.errors = append(e.errors, "file "+rel+" not found")
+		return
+	}
+	var rows []string
+	for _, d := range f.Decls {
+		fd, ok := d.(*ast.FuncDecl)
+		if !ok || fd.Body == nil {
+			continue
+		}
+		name := fd.Name.Name
+		if r := recvTypeName(fd); r != "" {
+			name = r + "." + name
+		}
+		var stack []ast.Node
+		ast.Inspect(fd.Body, func(n ast.Node) bool {
+			if n == nil {
+				stack = stack[:len(stack)-1]
+				return true
+			}
+			if call, ok := n.(*ast.CallExpr); ok {
+				if sel, ok := call.Fun.(*ast.SelectorExpr); ok && c12WheelMethods[sel.Sel.Name] {
+					detached, deferred := false, false
+					for _, a := range stack {
+						switch x := a.(type) {
+						case *ast.GoStmt:
+							detached = true
+						case *ast.DeferStmt:
+							deferred = true
+						case *ast.CallExpr:
+							if strings.Contains(s.src(x.Fun), "GoSafe") {
+								detached = true
+							}
+						}
+					}
+					if _, isGo := n.(*ast.CallExpr); isGo && len(stack) > 0 {
+						if g, ok := stack[len(stack)-1].(*ast.GoStmt); ok && g.Call == call {
+							detached = true
+						}
+					}
+					var args []string
+					for _, a := range call.Args {
+						args = append(args, fmt.Sprintf("%q", s.src(a)))
+					}
+					rows = append(rows, fmt.Sprintf("⟨%q, %q, [%s], %v, %v⟩", name, sel.Sel.Name, strings.Join(args, ", "), detached, deferred))
+				}
+			}
+			stack = append(stack, n)
+			return true
+		})
+	}
+	e.printf("/-- every call of a public method of a timing wheel in %s: function, method, arguments, on a goroutine of its own, deferred -/\ndef %s : List WheelCall :=\n  [%s]\n\n",
+		rel, lean, strings.Join(rows, ",\n   "))
+}
+
+// c12ForwardArgs emits the argument list of the single call of `callee` inside goName (a delegating entry point).
+func (e *emitter) c12ForwardArgs(s *source, rel, goName, callee, lean string) {
+	fd := s.findFunc(rel, goName)
+	if fd == nil {
+		e.errors = append(e.errors, "function "+goName+" not found in "+rel)
+		e.stringList(lean, "MISSING", []string{"MISSING"})
+		return
+	}
+	calls := c12CallsNamed(fd, callee)
+	if len(calls) != 1 {
+		e.errors = append(e.errors, fmt.Sprintf("%s: expected exactly one call of %s, found %d", goName, callee, len(calls)))
+		e.stringList(lean, "MISSING", []string{"MISSING"})
+		return
+	}
+	var args []string
+	for _, a := range calls[0].Args {
+		args = append(args, s.src(a))
+	}
+	e.stringList(lean, "arguments `"+goName+"` forwards to `"+callee+"`", args)
+}
+
+// c12Subst replaces method calls `x.Len()` by the identifier `length` and selectors `x.limit` by `limit`.
+func c12Subst(e ast.Expr) ast.Expr {
+	switch x := e.(type) {
+	case *ast.ParenExpr:
+		return &ast.ParenExpr{X: c12Subst(x.X)}
+	case *ast.BinaryExpr:
+		return &ast.BinaryExpr{X: c12Subst(x.X), Op: x.Op, Y: c12Subst(x.Y)}
+	case *ast.CallExpr:
+		if sel, ok := x.Fun.(*ast.SelectorExpr); ok && sel.Sel.Name == "Len" && len(x.Args) == 0 {
+			return c12Ident("length")
+		}
+	case *ast.SelectorExpr:
+		if x.Sel.Name == "limit" {
+			return c12Ident("limit")
+		}
+	}
+	return e
+}
+
+// c12FirstIfIn finds the first if statement anywhere below n (function literals included).
+func c12FirstIfIn(n ast.Node) *ast.IfStmt {
+	var found *ast.IfStmt
+	ast.Inspect(n, func(x ast.Node) bool {
+		if is, ok := x.(*ast.IfStmt); ok && found == nil {
+			found = is
+		}
+		return found == nil
+	})
+	return found
+}
+
+func (e *emitter) c12Round5(s *source, t *translator) {
+	const ca = "core/collection/cache.go"
+	const cl = "core/stores/cache/cleaner.go"
+	e.printf("structure WheelCall where\n  fn : String\n  method : String\n  args : List String\n  detached : Bool\n  deferred : Bool\n  deriving Repr, DecidableEq\n\n")
+	e.c12WheelCalls(s, ca, "cacheWheelCalls")
+	e.c12WheelCalls(s, cl, "cleanerWheelCalls")
+	e.c12ForwardArgs(s, ca, "Cache.Set", "SetWithExpire", "cacheSetForward")
+	e.c12ForwardArgs(s, ca, "Cache.Take", "Set", "cacheTakeForward")
+	e.c12ForwardArgs(s, ca, "Cache.SetWithExpire", "AroundDuration", "cacheExpiryForward")
+	e.c12ForwardArgs(s, "core/collection/timingwheel.go", "NewTimingWheel", "NewTimingWheelWithTicker", "newTimingWheelForward")
+	e.c12ForwardArgs(s, "core/collection/timingwheel.go", "NewTimingWheel", "NewTicker", "newTimingWheelTickerForward")
+	// guards: WithLimit installs the LRU list for limit > 0; keyLru.add evicts when the list is longer than the limit
+	if fd := s.findFunc(ca, "WithLimit"); fd != nil {
+		if is := c12FirstIfIn(fd.Body); is != nil {
+			e.c12Guard(t, s, "withLimitGuard", "guard of `WithLimit`", []string{"limit"}, is.Cond)
+		} else {
+			e.errors = append(e.errors, "WithLimit: no guard")
+		}
+	} else {
+		e.errors = append(e.errors, "WithLimit not found")
+	}
+	if fd := s.findFunc(ca, "keyLru.add"); fd != nil {
+		var last *ast.IfStmt
+		for _, st := range fd.Body.List {
+			if is, ok := st.(*ast.IfStmt); ok {
+				last = is
+			}
+		}
+		if last != nil {
+			e.c12Guard(t, s, "lruEvictGuard", "eviction test of `keyLru.add` (after the new key was pushed to the front)", []string{"length", "limit"}, c12Subst(last.Cond))
+		} else {
+			e.errors = append(e.errors, "keyLru.add: no eviction test")
+		}
+	}
+	for _, m := range []struct{ goName, lean string }{
+		{"Cache.Take", "cacheTakeStmts"}, {"Cache.doGet", "cacheDoGetStmts"}, {"Cache.Get", "cacheGetStmts"},
+		{"WithLimit", "withLimitStmts"}, {"keyLru.add", "lruAddStmts"}, {"keyLru.remove", "lruRemoveStmts"},
+		{"keyLru.removeOldest", "lruRemoveOldestStmts"}, {"keyLru.removeElement", "lruRemoveElementStmts"},
+		{"newKeyLru", "newKeyLruStmts"}, {"emptyLru.add", "emptyLruAddStmts"}, {"emptyLru.remove", "emptyLruRemoveStmts"},
+	} {
+		e.c12DeepDef(s, ca, m.goName, m.lean)
+	}
+	// the options loop and the default LRU of NewCache
+	if fd := s.findFunc(ca, "NewCache"); fd != nil {
+		var out []string
+		for _, st := range fd.Body.List {
+			src := s.src(st)
+			if strings.Contains(src, "lruCache") || strings.Contains(src, "opt(cache)") {
+				s.c12Deep([]ast.Stmt{st}, &out)
+			}
+		}
+		e.stringList("newCacheOptionStmts", "NewCache: the default LRU and the loop over the options", out)
+	}
+	// scanAndRunTasks / drainAll collect into a slice of their own (declared inside the function, never stored)
+	for _, m := range []struct{ goName, lean string }{{"TimingWheel.scanAndRunTasks", "scanTasksDecl"}, {"TimingWheel.drainAll", "drainTasksDecl"}} {
+		var out []string
+		if fd := s.findFunc("core/collection/timingwheel.go", m.goName); fd != nil {
+			ast.Inspect(fd.Body, func(n ast.Node) bool {
+				switch x := n.(type) {
+				case *ast.DeclStmt:
+					if strings.Contains(s.src(x), "tasks") {
+						out = append(out, s.src(x))
+					}
+				case *ast.AssignStmt:
+					src := s.src(x)
+					if strings.HasPrefix(src, "tasks ") || strings.HasPrefix(src, "tasks=") || strings.Contains(src, "= tasks") {
+						out = append(out, src)
+					}
+				}
+				return true
+			})
+		}
+		e.stringList(m.lean, "every declaration of / assignment to or from `tasks` in `"+m.goName+"`", out)
+	}
+}
+
 func init() {
 	register("C12", func(s *source, e *emitter) {
 		const f = "core/collection/timingwheel.go"
@@ -770,5 +965,6 @@ func init() {
 		e.shapeDef(s, f, "TimingWheel.setTask", "setTaskShape")
 		e.shapeDef(s, f, "TimingWheel.onTick", "onTickShape")
 		e.c12Clients(s)
+		e.c12Round5(s, t)
 	})
 }
